@@ -92,6 +92,24 @@ def shape_problem(doc, payload):
 
 # ---------------------------------------------------------------- property on the implementation's answers
 
+def split_res(r):
+    """'ok x.. g=0' / 'E:cls x.. g=1' -> (main, data hex, stuck flag); main = 'ok x..' or 'E:cls'"""
+    parts = r.split(" ")
+    g = None
+    if parts and parts[-1].startswith("g="):
+        g = parts[-1][2:]
+        parts = parts[:-1]
+    if parts and parts[0] == "ok":
+        return " ".join(parts), (parts[1][1:] if len(parts) > 1 else ""), g
+    return parts[0] if parts else "", (parts[1][1:] if len(parts) > 1 else ""), g
+
+
+def leak_key(main):
+    # the base64 layer failing while the HTML layer still has text to write is a defect of the pinned code
+    # (proposed-fixes/C10-decoder-goroutine-leak-b64err.diff); every other exit path must release the goroutine
+    return "decoder-goroutine-leak-b64err" if main.startswith("E:b64") else "decoder-goroutine-leak"
+
+
 def prop(line, impl, model):
     a = line.split(" ")
     op = a[1]
@@ -108,22 +126,38 @@ def prop(line, impl, model):
         # (byte equality with the model's document is the correspondence, not the property: a
         # format change that keeps the shape and carries the payload is reported as
         # no-failing-input-found)
-    elif op == "rt":
-        if impl != "ok " + hx(expand(a[2])):
-            return "round trip failed: decode(encode(p)) = %s (write sizes %s, source chunk %s, read buffer %s)" % (
-                impl[:60], a[3][:60], a[4], a[5])
-    elif op == "dec":
-        want = STATE.get("want", {}).get(line)
-        if want is not None:
-            kind, p = want
-            if kind == "same" and impl != "ok " + hx(p):
-                return "decoding changed under rewriting: got %s" % impl[:80]
-            if kind == "same-or-error" and not (impl == "ok " + hx(p) or impl.startswith("E:")):
-                return "rewriting produced different data: got %s" % impl[:80]
-            if kind == "error" and not impl.startswith("E:"):
-                return "malformed armor was accepted: got %s" % impl[:80]
-        if not (impl.startswith("ok x") or impl.startswith("E:")):
-            return "decoder result is neither data nor an error: " + impl[:80]
+    elif op in ("rt", "dec"):
+        main, data, g = split_res(impl)
+        if op == "rt":
+            if main != "ok " + hx(expand(a[2])):
+                return "round trip failed: decode(encode(p)) = %s (write sizes %s, source reads %s, read buffers %s)" % (
+                    impl[:60], a[3][:60], a[4], a[5])
+        else:
+            want = STATE.get("want", {}).get(line)
+            if want is not None:
+                kind, p = want
+                if kind == "same" and main != "ok " + hx(p):
+                    return "decoding changed under rewriting: got %s" % impl[:80]
+                if kind == "same-or-error" and not (main == "ok " + hx(p) or main.startswith("E:")):
+                    return "rewriting produced different data: got %s" % impl[:80]
+                if kind == "error" and not main.startswith("E:"):
+                    return "malformed armor was accepted: got %s" % impl[:80]
+            if not (main.startswith("ok x") or main.startswith("E:")):
+                return "decoder result is neither data nor an error: " + impl[:80]
+        if g == "1":
+            return ("after the decoder returned %s the goroutine started by NewArmorDecoder is still blocked in a pipe "
+                    "write: it, the tokenizer's buffer and the source reader are never released" % main[:40])
+        elif g != "0":
+            return "no liveness verdict from the driver: " + impl[:80]
+    elif op == "ahead":
+        mi, mm = re.search(r" c=(\d+)$", impl), re.search(r" c=(\d+)$", model)
+        if mi and mm and int(mi.group(1)) > int(mm.group(1)) + 2 * LIMIT:
+            return ("decoder read %s bytes of the source before blocking; a demand-driven decoder needs %s "
+                    "(at most one token and one read ahead)" % (mi.group(1), mm.group(1)))
+    elif op == "aheadg":
+        if " c=over" in impl:
+            return ("decoder read %s bytes of a source that gives as much as asked for, before blocking; a demand-driven "
+                    "decoder needs %s plus at most one read of the tokenizer" % (impl.rsplit(":", 1)[-1], a[4]))
     elif op == "mon":
         if impl != "returns":
             return "decoder misbehaved on arbitrary input: " + impl[:80]
@@ -134,6 +168,15 @@ def key_of(line, impl, model):
     a = line.split(" ")
     if impl.startswith("!"):
         return a[1] + "-" + impl.split(" ")[0][1:]
+    if a[1] in ("rt", "dec") and impl.endswith(" g=1"):
+        main = split_res(impl)[0]
+        ok = True
+        if a[1] == "rt":
+            ok = main == "ok " + hx(expand(a[2]))
+        if ok:
+            return leak_key(main)
+    if a[1] in ("ahead", "aheadg"):
+        return "unbounded-buffering"
     k = STATE.get("kind", {}).get(line)
     return k or a[1]
 
@@ -148,8 +191,23 @@ def rand_partition(rng, n):
     return ",".join(map(str, out)) or "-"
 
 
+def pat(rng, sizes, zero_ok):
+    r = rng.random()
+    if r < 0.6:
+        return str(rng.choice(sizes))
+    k = rng.choice([2, 3, 5])
+    out = [rng.choice(sizes + [rng.randrange(1, 40)]) for _ in range(k)]
+    if not zero_ok:
+        out = [max(1, x) for x in out]
+    return ",".join(map(str, out))
+
+
 def rs(rng):
-    return rng.choice([0, 1, 2, 3, 7, 4096]), rng.choice([1, 2, 3, 4, 4096])
+    """(source read sizes, caller's buffer sizes): single sizes or cyclic patterns. 0 = the whole rest in one Read.
+    Buffer sizes around the base64 reader's thresholds: 1..4 (less than a quantum), 768/771 (its 1024-character
+    buffer), 4096."""
+    return (pat(rng, [0, 0, 1, 2, 3, 7, 100, 4096], True),
+            pat(rng, [1, 2, 3, 4, 5, 6, 7, 8, 16, 767, 768, 769, 771, 4096, 4096], False))
 
 
 def resep(rng, payload, style):
@@ -209,6 +267,29 @@ def insertion_points(doc):
     return sorted(set(pts))
 
 
+def text_points(doc):
+    """offsets in text outside pre elements, outside tags and outside raw-text elements (any position of the
+    whitespace between elements, not only token boundaries)"""
+    pts, pos, inpre = [], 0, False
+    for m in re.finditer(rb"<(/?)([a-z]+)[^>]*>", doc):
+        if not inpre and pos <= m.start():
+            pts += range(pos, m.start() + 1)
+        name, close = m.group(2), bool(m.group(1))
+        pos = m.end()
+        if name == b"pre":
+            inpre = not close
+        elif name in (b"script", b"style", b"noscript") and not close:
+            e = doc.find(b"</" + name, m.end())
+            pos = len(doc) + 1 if e < 0 else e
+            pos = max(pos, m.end())
+            # skip to the end tag of the raw-text element: nothing may be inserted in its content
+            mm = re.compile(rb"</" + name + rb"[^>]*>").search(doc, m.end())
+            pos = mm.start() if mm else len(doc) + 1
+    if pos <= len(doc) and not inpre:
+        pts += range(pos, len(doc) + 1)
+    return sorted(set(pts))
+
+
 def gen(ctx):
     rng = ctx.rng
     thorough = ctx.tier == "thorough"
@@ -256,16 +337,16 @@ def gen(ctx):
     for i in range(200 * mult):
         n = rng.choice([0, 1, 2, 3, 23, 24, 25, 48, 72, 100, 1000, rng.randrange(0, 5000)])
         sc, rb = rs(rng)
-        add("rt %s %s %d %d" % (payload_spec(rng, n), rand_partition(rng, n), sc, rb), "roundtrip")
+        add("rt %s %s %s %s" % (payload_spec(rng, n), rand_partition(rng, n), sc, rb), "roundtrip")
     for n in [el - 1, el, el + 1, 2 * el, 100001] + ([250000] if thorough else []):
         for rb in ([4096, 3] if not thorough else [1, 2, 3, 4, 4096]):
-            add("rt %s %s %d %d" % (payload_spec(rng, n), rand_partition(rng, n), rng.choice([0, 4096, 7]), rb), "roundtrip-big")
+            add("rt %s %s %s %d" % (payload_spec(rng, n), rand_partition(rng, n), rng.choice(["0", "4096", "7", "1000,3,50"]), rb), "roundtrip-big")
     # whitespace re-separation
     for i in range(120 * mult):
         n = rng.choice([0, 1, 2, 3, 24, 25, 100, 500, rng.randrange(0, 2000)])
         p = expand(payload_spec(rng, n))
         sc, rb = rs(rng)
-        add("dec %d %d %s" % (sc, rb, doc_tokens(resep(rng, p, rng.choice(["min", "rand", "rand"])))), "resep", ("same", p))
+        add("dec %s %s %s" % (sc, rb, doc_tokens(resep(rng, p, rng.choice(["min", "rand", "rand"])))), "resep", ("same", p))
     for n in [el, el + 1] + ([2 * el + 5] if thorough else []):
         p = expand(payload_spec(rng, n))
         add("dec 0 4096 %s" % doc_tokens(resep(rng, p, "min")), "resep-big", ("same", p))
@@ -289,11 +370,20 @@ def gen(ctx):
         p = expand(payload_spec(rng, n))
         doc = py_armor(p)
         # all insertion points are taken on the original document (never inside inserted markup)
-        pts = insertion_points(doc)
-        for at in sorted((rng.choice(pts) for _ in range(rng.choice([1, 1, 2, 4]))), reverse=True):
-            doc = doc[:at] + rng.choice(MARKUP) + doc[at:]
+        if i % 3 == 2:
+            # anywhere in the text between elements; a lone '<' would join what follows it, so the inserted markup
+            # is followed by a space when it ends in text
+            pts = [x for x in text_points(doc) if x >= len(STATE["bs"])]
+            for at in sorted((rng.choice(pts) for _ in range(rng.choice([1, 1, 2, 4]))), reverse=True):
+                doc = doc[:at] + rng.choice(MARKUP + [b"AT&amp;T", b"&lt;pre&gt;", b"\x00", b"caf\xc3\xa9"]) + b" " + doc[at:]
+            kind = "outside-text"
+        else:
+            pts = insertion_points(doc)
+            for at in sorted((rng.choice(pts) for _ in range(rng.choice([1, 1, 2, 4]))), reverse=True):
+                doc = doc[:at] + rng.choice(MARKUP) + doc[at:]
+            kind = "outside-markup"
         sc, rb = rs(rng)
-        add("dec %d %d %s" % (sc, rb, doc_tokens(doc)), "outside-markup", ("same", p))
+        add("dec %s %s %s" % (sc, rb, doc_tokens(doc)), kind, ("same", p))
     p = expand("g%d.3" % (el + 100))
     doc = py_armor(p).replace(b"</pre>\n<pre>", b"</pre><hr><!-- x --><p class=\"a\">text</p>\n<pre>")
     add("dec 0 4096 %s" % doc_tokens(doc), "outside-markup-big", ("same", p))
@@ -306,7 +396,7 @@ def gen(ctx):
         a1 = doc.index(b"</pre>")
         at = rng.randrange(a0, a1 + 1)
         doc = doc[:at] + rng.choice([b"<b>", b"</b>", b"<!-- x -->", b"<br/>", b"<title>QUJD</title>", b"<pre/>", b" ", b"<i >"]) + doc[at:]
-        add("dec %d %d %s" % (*rs(rng), doc_tokens(doc)), "inside-markup")
+        add("dec %s %s %s" % (*rs(rng), doc_tokens(doc)), "inside-markup")
     # malformed armor
     good = py_armor(b"hello, world")
     S, E = STATE["bs"], STATE["be"]
@@ -347,22 +437,19 @@ def gen(ctx):
             if r < 0.3:
                 del d[at:at + rng.choice([1, 1, 2, 5])]
             elif r < 0.6:
-                d[at:at] = rng.choice([b"<pre>", b"</pre>", b"=", b"*", b"Q", b"<", b">", b"/", b"<!--", b"<title>", b"\x00"])
+                d[at:at] = rng.choice([b"<pre>", b"</pre>", b"=", b"*", b"Q", b"<", b">", b"/", b"<!--", b"<title>", b"\x00",
+                                       b"&", b"&#81;", b"&amp;", b"<script>", b"-->", b"</title>", b"<PRE>", b"==", b"<![CDATA["])
             else:
-                d[at] = rng.choice(b"<>/=pre QA09+\n!-")
+                d[at] = rng.choice(b"<>/=pre QA09+\n!-&;#\x00")
         s = bytes(d)
-        if b"&" in s or b"<!--" in s and b"<script" in s[a0:]:
-            continue
-        if re.search(rb"=[\s<>/a-z]*[A-Za-z0-9+/]", s[a0:]):   # data after padding: library leniency, monitors only
-            add("mon %d %d %s" % (*rs(rng), doc_tokens(s)), "mutated-after-padding")
-            continue
-        add("dec %d %d %s" % (*rs(rng), doc_tokens(s)), "mutated")
+        add("dec %s %s %s" % (*rs(rng), doc_tokens(s)), "mutated")
     # every truncation of a valid document
     for k in range(0, len(good) + 1, 1 if thorough else 3):
-        add("dec %d %d %s" % (*rs(rng), doc_tokens(good[:k])), "truncated")
+        add("dec %s %s %s" % (*rs(rng), doc_tokens(good[:k])), "truncated")
     for k in range(len(good) - len(E) - 40, len(good) + 1):
-        add("dec %d %d %s" % (*rs(rng), doc_tokens(good[:k])), "truncated")
-    # arbitrary bytes: monitors only
+        add("dec %s %s %s" % (*rs(rng), doc_tokens(good[:k])), "truncated")
+    # arbitrary bytes: compared like everything else (the model covers character references, NUL, script
+    # escapes, CDATA as bogus comment, data after base64 padding), plus the allocation monitor on a part
     soup = [b"<", b">", b"/", b"pre", b"<pre>", b"</pre>", b"&", b"&#48;", b"<!--", b"-->", b"<script>", b"</script>", b"=", b"0",
             b"QUJD", b" ", b"\n", b"\x00", b"<title>", b"'", b"\"", b"<![CDATA[", b"]]>", b"<plaintext>"]
     for i in range(300 * mult):
@@ -370,12 +457,160 @@ def gen(ctx):
             s = bytes(rng.randrange(256) for _ in range(rng.randrange(0, 300)))
         else:
             s = b"".join(rng.choice(soup) for _ in range(rng.randrange(0, 40)))
-        add("mon %d %d %s" % (*rs(rng), doc_tokens(s)), "arbitrary")
-    add("mon 0 4096 %s" % doc_tokens(b"<pre>0" + b"QUJD" * 40000), "arbitrary-huge")
-    add("mon 0 4096 %s" % doc_tokens(b"<pre>0" + b"QUJD " * 40000), "arbitrary-huge")
-    add("mon 0 4096 %s" % doc_tokens(b"<b " + b"a='b' " * 40000), "arbitrary-huge")
-    add("mon 7 1 %s" % doc_tokens(b"<pre>0QQ==</pre><pre>QUJD</pre>"), "after-padding")
+        add("%s %s %s %s" % ("mon" if i % 4 == 0 else "dec", *rs(rng), doc_tokens(s)), "arbitrary")
+    for big in (b"<pre>0" + b"QUJD" * 40000, b"<pre>0" + b"QUJD " * 40000, b"<b " + b"a='b' " * 40000):
+        add("mon 0 4096 %s" % doc_tokens(big), "arbitrary-huge")
+        add("dec 0 4096 %s" % doc_tokens(big), "arbitrary-huge")
+    for sc, rb in (("7", "1"), ("0", "4096"), ("1", "3"), ("0", "4")):
+        add("dec %s %s %s" % (sc, rb, doc_tokens(b"<pre>0QQ==</pre><pre>QUJD</pre>")), "after-padding")
+        add("dec %s %s %s" % (sc, rb, doc_tokens(b"<pre>0QQ==QUJD QUI= QUJD</pre>")), "after-padding")
+    gen_adversarial(ctx, add)
     return lines, kinds
+
+
+# ---------------------------------------------------------------- adversarial documents (outside the encoder's grammar)
+
+ADV = [b"<pre>", b"</pre>", b"<PRE>", b"</PRE >", b"<pRe\n>", b"<pre/>", b"<pre a='>' B=\"<pre>\">", b"</pre x=y>", b"<!--", b"-->", b"<!-- x -->",
+       b"<!-->", b"<!--->", b"<!--a--!>", b"--!>", b"<script>", b"</script>", b"<SCRIPT >", b"</ScRiPt\t>",
+       b"<script>a<!--<script>b</script>c--></script>", b"<script><!--<script></script>", b"<!--<script>", b"</script",
+       b"<style>", b"</style>", b"<title>", b"</title>", b"</titl", b"<textarea>", b"</textarea >", b"<xmp>", b"</xmp>", b"<plaintext>",
+       b"<noscript>", b"</noscript>", b"<iframe>", b"</iframe/>", b"<title/>", b"<![CDATA[", b"]]>", b"<!DOCTYPE html>", b"<!doctype", b"<?x ?>",
+       b"</>", b"</ >", b"<", b">", b"</", b"<a", b"<a b=\"", b"<a b='x", b"<a/", b"<b>", b"</b>", b"<br/>", b"<p class=x>", b"<TITLE>x</TiTlE>",
+       b"&", b"&amp;", b"&amp", b"&#48;", b"&#x3c;pre&#x3e;", b"&lt;pre&gt;", b"&#", b"&#x", b"&#x;", b"&#1x", b"&foo;", b"&notin;", b"&nbsp;",
+       b"&equals;", b"&plus;", b"&sol;", b"&Tab;", b"&NewLine;", b"&#32;", b"&#x0a;", b"&#0;", b"&#4294967361;",
+       b"\x00", b"\x00\x00\x00", b"=", b"==", b"QQ==", b"QUI=", b"Q", b"QUJD", b"*", b"\r\n", b"\x0c", b" ", b"\t", b"\xc3\xa9", b"\xff"]
+ENT = {ord("+"): [b"&plus;", b"&#43;", b"&#x2b;", b"&#X2B"], ord("/"): [b"&sol;", b"&#47;"], ord("="): [b"&equals;", b"&#61;", b"&#x3D;"]}
+WSENT = [b"&#32;", b"&Tab;", b"&NewLine;", b"&#10;", b"&#x20;", b"&#9;", b"&#13;", b"&#12;"]
+
+
+def entity_text(rng, payload):
+    """the armored text of payload with characters written as character references: the decoder sees Text(),
+    i.e. the same words"""
+    s = b"0" + base64.b64encode(payload)
+    out = []
+    for i, c in enumerate(s):
+        r = rng.random()
+        if r < 0.15:
+            out.append(rng.choice(ENT.get(c, []) + [b"&#%d;" % c, b"&#x%x;" % c, b"&#%d " % c if False else b"&#%d;" % c]))
+        else:
+            out.append(bytes([c]))
+        if rng.random() < 0.1:
+            out.append(rng.choice(WS + WSENT))
+    return b"".join(out)
+
+
+def adv_doc(rng):
+    r = rng.random()
+    if r < 0.35:
+        p = bytes(rng.randrange(256) for _ in range(rng.choice([0, 1, 2, 3, 9, 30])))
+        d = bytearray(b"<pre>" + entity_text(rng, p) + b"</pre>")
+        n_ins = rng.choice([0, 1, 1, 2, 4])
+    elif r < 0.6:
+        p = bytes(rng.randrange(256) for _ in range(rng.choice([1, 3, 24, 50])))
+        d = bytearray(py_armor(p)[len(STATE["bs"]) - rng.choice([0, 0, 20]):])
+        n_ins = rng.choice([1, 2, 3, 6])
+    else:
+        d = bytearray(rng.choice([b"", b"<pre>0", b"<pre>0", b"<pre>0QUJD", b"<pre>\n0QUJD\n", b"<PRE>0", b"<pre>0QUJD</pre>"]))
+        n_ins = rng.randrange(1, 14)
+    for _ in range(n_ins):
+        at = rng.randrange(0, len(d) + 1)
+        d[at:at] = rng.choice(ADV)
+    if rng.random() < 0.25 and d:
+        del d[rng.randrange(0, len(d)):]
+    if rng.random() < 0.2 and d:
+        for _ in range(rng.choice([1, 2, 5])):
+            d[rng.randrange(0, len(d))] = rng.randrange(256)
+    return bytes(d)
+
+
+def entity_names():
+    txt = open(vlib.COQ + "/Model/HtmlEntities.v").read()
+    return [m.encode() for m in re.findall(r'\("([A-Za-z0-9]+;?)"%string', txt)]
+
+
+def gen_adversarial(ctx, add):
+    rng = ctx.rng
+    mult = 10 if ctx.tier == "thorough" else 1
+    # character references: html.UnescapeString against Armor.unescape, every name of the table in four contexts
+    names = entity_names()
+    STATE["n_entities"] = len(names)
+    for i in range(0, len(names), 80):
+        part = names[i:i + 80]
+        for form in (lambda n: b"&" + n, lambda n: b"&" + n + b"x", lambda n: b"&" + n.rstrip(b";"), lambda n: b"&" + n[:-2] + b";"):
+            add("unesc " + hx(b"|".join(form(n) for n in part)), "unescape-named")
+    nums = [0, 1, 9, 10, 13, 32, 38, 60, 65, 127, 128, 129, 130, 142, 159, 160, 255, 256, 0x7ff, 0x800, 0xd7ff, 0xd800, 0xdfff, 0xe000, 0xfffd,
+            0xffff, 0x10000, 0x10ffff, 0x110000, 2**31 - 1, 2**31, 2**31 + 65, 2**32 - 1, 2**32, 2**32 + 65, 2**33 + 0x41, 10**20]
+    forms = []
+    for n in nums:
+        forms += [b"&#%d;" % n, b"&#%d" % n, b"&#%dz" % n, b"&#x%x;" % n, b"&#X%X" % n, b"&#x%xg" % n, b"&#0%d;" % n]
+    forms += [b"&", b"&;", b"&#", b"&#;", b"&#x", b"&#x;", b"&#X;", b"&#xg", b"&#1", b"&#1x", b"&#12x", b"&#x1", b"&#x1g", b"&# 1;", b"&#-1;", b"&&amp;&",
+              b"&a", b"&am", b"&amp", b"&ampx", b"&ampx;", b"&amp=", b"&notit;", b"&notin;", b"&no", b"&not", b"&lt", b"&ltx;", b"&" + b"a" * 40 + b";",
+              b"&CounterClockwiseContourIntegral;", b"&CounterClockwiseContourIntegralx", b"a&b", b"&#65;&#66", b"&#x41;&#x42"]
+    for i in range(0, len(forms), 12):
+        add("unesc " + hx(b"|".join(forms[i:i + 12])), "unescape-numeric")
+    for f in forms:
+        add("unesc " + hx(f), "unescape-numeric")
+    for _ in range(60 * mult):
+        s = b"".join(rng.choice([b"&", b"#", b"x", b";", b"a", b"m", b"p", b"l", b"t", b"1", b"9", b"f", b"G", b" ", b"=", b"&amp", b"&#x"]) for _ in range(rng.randrange(1, 14)))
+        add("unesc " + hx(s), "unescape-random")
+    # the tokenizer at the decoder's granularity, and the decoder, on documents mixing everything
+    for _ in range(500 * mult):
+        add("tok " + doc_tokens(adv_doc(rng)), "adversarial-tokens")
+    for _ in range(900 * mult):
+        add("dec %s %s %s" % (*rs(rng), doc_tokens(adv_doc(rng))), "adversarial")
+    fixed = [b"<pre>0QU&#74;D</pre>", b"<pre>0QU&amp;D</pre>", b"<pre>&#48;QUJD</pre>", b"<pre>0QUJD&#32;QUJD&Tab;QUJD&NewLine;</pre>",
+             b"<pre>0QQ&equals;&equals;</pre>", b"<pre>0&lt;pre&gt;QUJD</pre>", b"<pre>0QUJD\x00</pre>", b"<pre>\x000QUJD</pre>",
+             b"<pre><title>0QUJD</title></pre>", b"<pre><title>0QUJ&#68;</title></pre>", b"<pre><style>0QUJ&#68;</style></pre>",
+             b"<pre><title>0QUJD\x00</title></pre>", b"<pre><script>0QUJD</script></pre>", b"<pre><script>0QUJD<!--<script></script>QUJD--></script>QUJD</pre>",
+             b"<pre><script>0QUJD<!--</script>QUJD</pre>", b"<pre><script>0<!--<script></script >QUJD</script>QUJD</pre>", b"<pre><plaintext>0QUJD</pre>",
+             b"<script><pre>0QUJD</pre></script><pre>0QQ==</pre>", b"<!--<pre>0QUJD</pre>--><pre>0QQ==</pre>", b"<![CDATA[<pre>0QUJD</pre>]]>",
+             b"<title><pre>0QUJD</pre></title><pre>0QQ==</pre>", b"<textarea></pre></textarea><pre>0QQ==</pre>", b"<pre a=\"</pre>\">0QUJD</pre>",
+             b"<PRE>0QUJD</PRE>", b"<pre/>0QUJD</pre>", b"<pre>0QUJD</pre/>", b"<pre>0QUJD</pre x>", b"<pre>0QUJD</pre", b"<pre>0QUJD</pre ", b"<pre",
+             b"<pre >0QU<JD</pre>", b"<pre>0QUJD<</pre>", b"<pre>0QUJD</></pre>", b"<pre>0QUJD<!></pre>", b"<pre>0QUJD<?></pre>", b"<pre>0QUJD<!-</pre>-->QUJD</pre>",
+             b"<pre>1QUJD</pre>", b"<pre>1 QUJD</pre>", b"<pre>1</pre><pre>QUJD</pre>", b"<pre>1</pre>", b"<pre>\x00</pre>", b"<pre>1" + b" QUJD" * 3000 + b"</pre>",
+             b"<pre>0QU*D QUJD</pre>", b"<pre>0QU*D</pre><pre>QUJD</pre>", b"<pre>0QUJD=QUJD</pre>", b"<pre>0QUJD QUJD<pre>", b"<pre>0QUJD</pre></pre><pre>QUJD</pre>"]
+    for doc in fixed:
+        for sc, rb in (("0", "4096"), ("1", "1"), ("7", "3"), ("3,1", "4,1,768")):
+            add("dec %s %s %s" % (sc, rb, doc_tokens(doc)), "exit-paths")
+        add("tok " + doc_tokens(doc), "adversarial-tokens")
+    # the buffer limit in the raw-text, script and comment states; a NUL-expanded word at bufio.MaxScanTokenSize
+    for opn, cls in ((b"<title>", b"</title>"), (b"<xmp>", b"</xmp>"), (b"<script>", b"</script>"), (b"<script><!--<script>", b"</script>--></script>")):
+        fixedlen = len(opn)
+        for total in ([LIMIT - 12, LIMIT - 3, LIMIT - 2, LIMIT - 1, LIMIT, LIMIT + 5] if opn != b"<xmp>" else [LIMIT - 2, LIMIT - 1]):
+            body = b"0" + b"QUJD" * ((total - 1) // 4)
+            body += b" " * (total - len(body))
+            doc = b"<pre>" + opn + body + cls + b"</pre>"
+            add("dec 0 4096 %s" % doc_tokens(doc), "limit-raw")
+            add("tok %s" % doc_tokens(doc), "limit-raw")
+    for inner in (b"<!--" + b"a" * 40000 + b"-->", b"<b " + b"a" * 40000 + b">", b"<!DOCTYPE " + b"a" * 40000 + b">", b"<plaintext>" + b"a" * 40000):
+        add("tok %s" % doc_tokens(b"<pre>0QUJD</pre>" + inner), "limit-raw")
+        add("dec 0 4096 %s" % doc_tokens(b"<pre>0QUJD</pre>" + inner), "limit-raw")
+    for nuls in (21845, 21846, 30000):
+        doc = b"<pre><title>0QUJD " + b"\x00" * nuls + b" QUJD</title>QUJD</pre>"
+        add("dec 0 4096 %s" % doc_tokens(doc), "scanner-too-long")
+        add("dec 3 5 %s" % doc_tokens(doc), "scanner-too-long")
+    # demand-driven reading: after k Reads the producer has consumed exactly what its next Write needs
+    for _ in range(60 * mult):
+        p = expand(payload_spec(rng, rng.choice([3, 24, 100, 500, 2000])))
+        doc = resep(rng, p, "rand")
+        for at in sorted((m.start() for m in re.finditer(rb"[ \n\t]", doc) if rng.random() < 0.02), reverse=True):
+            doc = doc[:at] + rng.choice([b"<b>", b"</b>", b"<!-- c -->", b"<br/>"]) + doc[at:]
+        doc = doc.replace(b"</pre>", b"</pre>" + b"<!-- filler -->\n" * rng.choice([0, 10, 300]), 1)
+        k = rng.choice([1, 7, 100, 1000, 2048])
+        add("ahead %d %s %d %s" % (k, rng.choice(["1", "3", "16", "4096", "2,5"]), rng.choice([0, 1, 2, 5, 50, 100000]), doc_tokens(doc)), "read-ahead")
+    for doc in fixed[:20]:
+        add("ahead %d %d %d %s" % (rng.choice([1, 5, 64]), rng.choice([1, 4, 4096]), rng.choice([0, 1, 3]), doc_tokens(doc)), "read-ahead")
+    # a long document: after the first Read the decoder has consumed one element's worth, not the document
+    p = expand("g100.1")
+    long_doc = STATE["bs"] + b"<pre>\n0" + base64.b64encode(p) + b"\n</pre>\n" + b"<p>filler</p>\n" * 40000 + b"<pre>QUJD</pre>" + STATE["be"]
+    add("ahead 2048 16 1 %s" % doc_tokens(long_doc), "read-ahead-long")
+    add("ahead 1000 4096 0 %s" % doc_tokens(long_doc), "read-ahead-long")
+    # ... also from a source that returns as much as each Read asks for (what the model says a byte-wise source
+    # would have delivered is given to the driver as the yardstick)
+    for rb, k in (("16", 1), ("4096", 0)):
+        m = vlib.run_model([AREA + " ahead 1 %s %d %s" % (rb, k, doc_tokens(long_doc))])[0]
+        need = int(m.rsplit("c=", 1)[1])
+        add("aheadg %s %d %d %s" % (rb, k, need, doc_tokens(long_doc)), "read-ahead-greedy")
 
 
 def consts_crosscheck(ctx, boiler):
@@ -393,17 +628,38 @@ def consts_crosscheck(ctx, boiler):
         pass
 
 
+def entities_crosscheck(ctx):
+    """the model's entity table against the map literals of the library source the repo's go.mod selects
+    (cross-check only: a name the table lacks would not be exercised by the unesc cases)"""
+    try:
+        ver = re.search(r"golang.org/x/net (v\S+)", open(vlib.REPO + "/go.mod").read()).group(1)
+        import subprocess
+        cache = subprocess.run(["go", "env", "GOMODCACHE"], capture_output=True, text=True, timeout=60).stdout.strip()
+        src = open("%s/golang.org/x/net@%s/html/entity.go" % (cache, ver)).read()
+    except Exception:
+        return
+    lib = set(m.encode() for m in re.findall(r'^\t"([A-Za-z0-9]+;?)":', src, re.M))
+    mine = set(entity_names())
+    if lib != mine:
+        ctx.not_shown("constants: coq/Model/HtmlEntities.v differs from x/net/html/entity.go (%d names only in the library, %d only in the model)"
+                      % (len(lib - mine), len(mine - lib)))
+    ctx.extra["entity_table_crosschecked"] = len(mine)
+
+
 def run(ctx):
     exe = vlib.go_build("./zz_verif/armor")
-    ctx.trusted += ["golang.org/x/net/html tokenizer, io.Pipe and base64.NewDecoder are library code: modelled "
-                    "(coq/Model/Armor.v automaton), tied by correspondence on the simple document grammar only",
+    ctx.trusted += ["golang.org/x/net/html tokenizer, bufio.Scanner, io.Pipe and base64.NewDecoder are library code: modelled "
+                    "(coq/Model/Armor.v tokenizer automaton + Text(); coq/Model/ArmorStream.v pipe and base64 reader), tied by "
+                    "correspondence: token streams (op tok), html.UnescapeString on every entity name (op unesc), decoder results, "
+                    "source consumption (op ahead)",
                     "python reference of the documented armor format in lib/checks/c10.py (shape / round-trip predicates)"]
-    ctx.assumptions += ["model = coq/Model/Base64.v + coq/Model/Armor.v (hand written); tie = correspondence on generated cases",
-                        "decoder grammar: no character references or NUL in text inside pre, no '<!--' inside script, "
-                        "no data after base64 padding (those inputs get monitors only)"]
+    ctx.assumptions += ["model = coq/Model/Base64.v + Armor.v + ArmorStream.v + HtmlEntities.v (hand written / table generated from "
+                        "the library source); tie = correspondence on generated cases",
+                        "the source reader returns its bytes and then io.EOF (no I/O errors, no (0, nil) reads)"]
     b = vlib.run_model([AREA + " boiler"])[0].split(".")
     STATE["bs"], STATE["be"] = bytes.fromhex(b[0]), bytes.fromhex(b[1])
     consts_crosscheck(ctx, (STATE["bs"], STATE["be"]))
+    entities_crosscheck(ctx)
     lines, kinds = gen(ctx)
     ctx.correspond(exe, lines, kinds, label="amp-armor", prop=prop, key_of=key_of)
     # bounded buffering / no hang on an endless document (implementation monitors only): a well-formed document
